@@ -9,9 +9,12 @@ package main
 
 import (
 	"bytes"
+	"context"
 	"fmt"
 	"net"
+	"os"
 	"reflect"
+	"runtime/pprof"
 	"sync"
 	"sync/atomic"
 	"time"
@@ -28,6 +31,9 @@ import (
 )
 
 func init() { props["C14"] = genC14 }
+
+var c14Start = time.Now()
+var c14Dumped bool
 
 type c14Events struct {
 	mu      sync.Mutex
@@ -339,6 +345,7 @@ func genC14(ctx *Ctx) {
 	}
 	c14Concurrent(ctx, be, env, evs, &nextID)
 	c14Backlogged(ctx, be, env, evs, &nextID)
+	c14RefreshBurst(ctx, evs, &nextID)
 	_ = proxy.Config{}
 	_ = bytes.MinRead
 }
@@ -346,6 +353,69 @@ func genC14(ctx *Ctx) {
 // c14Concurrent: a steady stream of schema events while clients connect, register and leave on
 // their own schedule.  Per client: the events it received, and the number of events that had
 // been emitted when it saw READY.
+// c14RefreshBurst: schema events keep arriving on the control connection while the cluster refreshes its hosts (a topology
+// event was announced one refresh window earlier and the system-table answers take 80 ms).  proxycore.Cluster is driven
+// through its public API with a short refresh window; a listener stands for the proxy.  Every event must reach the listener,
+// once, in order, and without waiting for the refresh to time out.
+func c14RefreshBurst(ctx *Ctx, evs *c14Events, nextID *int) {
+	prefix, port := px.Alloc()
+	be := fb.New(prefix, port)
+	for h := 1; h <= 2; h++ {
+		if err := be.StartHost(h); err != nil {
+			panic(err)
+		}
+	}
+	be.SetTopology(1, 2)
+	defer be.Shutdown()
+	for round := 0; round < ctx.Scale(2, 10); round++ {
+		c, cancel := context.WithCancel(context.Background())
+		cluster, err := proxycore.ConnectCluster(c, proxycore.ClusterConfig{Version: primitive.ProtocolVersion4,
+			Resolver: proxycore.NewResolverWithDefaultPort([]string{be.IP(1)}, be.Port), ReconnectPolicy: proxycore.NewReconnectPolicyWithDelays(20*time.Millisecond, 200*time.Millisecond),
+			RefreshWindow: 150 * time.Millisecond, RefreshTimeout: 3 * time.Second, ConnectTimeout: 3 * time.Second, HeartBeatInterval: 30 * time.Second, IdleTimeout: 60 * time.Second})
+		if err != nil {
+			panic(err)
+		}
+		var mu sync.Mutex
+		var got []int
+		_ = cluster.Listen(proxycore.ClusterListenerFunc(func(e proxycore.Event) {
+			if s, ok := e.(*proxycore.SchemaChangeEvent); ok {
+				var id int
+				if _, err := fmt.Sscanf(s.Message.Keyspace, evs.tag+"ev%d", &id); err != nil {
+					id = 400001
+				}
+				mu.Lock()
+				got = append(got, id)
+				mu.Unlock()
+			}
+		}))
+		c14WaitRegistered(be)
+		be.SetSysDelay(80 * time.Millisecond)
+		ops := []hv.V{hv.L(hv.I(0), hv.I(0)), hv.L(hv.I(1), hv.I(0), hv.Bool(true))}
+		be.Event(&message.TopologyChangeEvent{ChangeType: primitive.TopologyChangeTypeNewNode, Address: &primitive.Inet{Addr: []byte{127, 0, 0, 9}, Port: int32(be.Port)}})
+		ops = append(ops, hv.L(hv.I(3), hv.I(1), hv.I(0)))
+		er := hv.NewRng(ctx.Rng.Next())
+		for k := 0; k < 100; k++ { // half a second of schema events, the refresh happens in the middle
+			id := *nextID
+			*nextID++
+			be.Event(evs.schema(id, er))
+			ops = append(ops, hv.L(hv.I(3), hv.I(0), hv.I(int64(id))))
+			time.Sleep(5 * time.Millisecond)
+		}
+		time.Sleep(400 * time.Millisecond)
+		mu.Lock()
+		var l []hv.V
+		for _, g := range got {
+			l = append(l, hv.I(int64(g)))
+		}
+		mu.Unlock()
+		be.SetSysDelay(0)
+		cancel()
+		ctx.Emit(hv.L(hv.I(1), hv.L(ops...)), hv.L(hv.L(l...)), "schema events during a refresh of the hosts")
+		ctx.Count("events-during-refresh")
+		time.Sleep(50 * time.Millisecond)
+	}
+}
+
 // c14Backlogged: a registered client that has pipelined tens of thousands of requests and is not reading (its socket
 // buffers and the proxy's queue for it are full) when schema events are announced; it then reads everything.  It is
 // connected and registered: it must find every event, once, among the answers; so must a client that reads normally.
@@ -441,6 +511,9 @@ func c14Backlogged(ctx *Ctx, be *fb.Backend, env *px.Env, evs *c14Events, nextID
 func c14Concurrent(ctx *Ctx, be *fb.Backend, env *px.Env, evs *c14Events, nextID *int) {
 	r := ctx.Rng
 	for round := 0; round < ctx.Scale(3, 30); round++ {
+		if os.Getenv("VH_DEBUG") != "" {
+			fmt.Fprintf(os.Stderr, "DEBUG c14 round %d at %v: control ready %d registered %v\n", round, time.Since(c14Start).Round(time.Millisecond), be.ControlReady(), be.Registered())
+		}
 		first := *nextID
 		total := 120
 		var emitted int64 = int64(first) // ids below this have been written to the control connection
@@ -512,6 +585,19 @@ func c14Concurrent(ctx *Ctx, be *fb.Backend, env *px.Env, evs *c14Events, nextID
 		close(stop)
 		wg.Wait()
 		last := *nextID
+		if os.Getenv("VH_DEBUG") != "" {
+			starved := 0
+			for _, rs := range results {
+				if rs.stayed && len(rs.got) == 0 {
+					starved++
+				}
+			}
+			if starved > 2 && !c14Dumped {
+				c14Dumped = true
+				fmt.Fprintf(os.Stderr, "DEBUG c14 STALL in round %d at %v\n", round, time.Since(c14Start))
+				_ = pprof.Lookup("goroutine").WriteTo(os.Stderr, 1)
+			}
+		}
 		for i, rs := range results {
 			// registration is placed where the first frame shows it took effect, at the latest when READY was seen
 			reg := rs.readyAt
